@@ -16,9 +16,9 @@ RULE = ("cases = a base object (term, list, contract, compound contract) on smal
         "non-trivial = the base has >= 1 term and at least one derived object is an edit (not only copies); distinct = SHA-1 of the case")
 ASSUMPTIONS = ["permutations of inputs/outputs/terms are checked for coherence only (eq => equal hash, symmetry), not for a particular answer"]
 
-EDITS_CONTRACT = ["copy", "copy", "inplace-simplify", "replace-input", "replace-output", "add-output", "coef", "const-a", "const-g", "drop-g", "perm-inputs",
+EDITS_CONTRACT = ["copy", "copy", "inplace-simplify", "move-input-to-output", "hash-then-rename", "replace-input", "replace-output", "add-output", "coef", "const-a", "const-g", "drop-g", "perm-inputs",
                   "perm-outputs", "perm-terms", "roundtrip-dict", "roundtrip-str", "neg-zero", "var-order"]
-EDITS_TERMS = ["copy", "coef", "const", "neg-zero", "var-order", "parsed", "perm-terms", "drop-term"]
+EDITS_TERMS = ["copy", "coef", "const", "neg-zero", "var-order", "parsed", "perm-terms", "drop-term", "hash-then-rename"]
 
 
 @st.composite
@@ -160,6 +160,17 @@ def run_case(case):
                 if e == "copy":
                     objs.append(base.copy())
                     expect.append(False)
+                elif e == "hash-then-rename":
+                    # an object that was hashed, then renamed, must equal (and hash like) the same object built from scratch;
+                    # both are appended so that the coherence laws apply to the pair
+                    src = sorted(case["base"][0][0])[case["pick"] % len(case["base"][0][0])]
+                    o = _mk_terms(kind, case["base"], "none")
+                    hash(o)
+                    objs.append(o.rename_variable(env.Var(src), env.Var("zz")))
+                    expect.append(None)
+                    renamed = [[{("zz" if k == src else k): v for k, v in t[0].items()}, t[1]] for t in case["base"]]
+                    objs.append(_mk_terms(kind, renamed, "none"))
+                    expect.append(None)
                 else:
                     ts, differs = _edit_terms(case["base"], e, case["pick"], case["delta"])
                     objs.append(_mk_terms(kind, ts, e))
@@ -172,6 +183,27 @@ def run_case(case):
                 if e == "copy" and kind == "contract":
                     objs.append(base.copy())
                     expect.append(False)
+                elif e == "hash-then-rename" and kind == "contract":
+                    names = case["base"]["i"] + case["base"]["o"]
+                    src = names[case["pick"] % len(names)]
+                    hash(base)
+                    for t in base.a.terms + base.g.terms:
+                        hash(t)
+                    objs.append(base.rename_variable(env.Var(src), env.Var("zz")))
+                    expect.append(None)
+                    objs.append(env.C(env.c_data(objs[-1])))
+                    expect.append(None)
+                elif e == "move-input-to-output" and kind == "contract":
+                    d = _copy.deepcopy(case["base"])
+                    used = {n for t in d["a"] for n in t[0]}
+                    if d["i"] and d["i"][-1] not in used:
+                        v = d["i"].pop()
+                        d["o"] = [v] + d["o"]
+                        objs.append(env.C(d))
+                        expect.append(True)
+                    else:
+                        objs.append(base.copy())
+                        expect.append(False)
                 elif e == "inplace-simplify":
                     # built without simplification, hashed, then simplified in place: must equal (and hash like) the
                     # contract built with the default simplification when the guarantees come out the same
@@ -216,6 +248,9 @@ def run_case(case):
     E = [[eq(objs[i], objs[j]) for j in range(n)] for i in range(n)]
     H = [h(o) for o in objs]
     viol = None
+    names_e = []
+    for e in case["edits"]:
+        names_e += [e, e] if (e == "hash-then-rename" and kind in ("term", "list", "contract")) else [e]
     for i in range(n):
         if not E[i][i]:
             viol = {"what": "%s object is not equal to itself" % kind, "sig": {"kind": "eq-not-reflexive", "obj": kind}, "detail": {}}
@@ -223,12 +258,12 @@ def run_case(case):
             if viol is None and E[i][j] != E[j][i]:
                 viol = {"what": "equality is not symmetric", "sig": {"kind": "eq-not-symmetric", "obj": kind}, "detail": {"i": i, "j": j}}
             if viol is None and E[i][j] and H[i] is not None and H[j] is not None and H[i] != H[j]:
-                viol = {"what": "equal %s objects have different hashes (edit %s)" % (kind, (["base"] + case["edits"])[max(i, j)]),
+                viol = {"what": "equal %s objects have different hashes (edit %s)" % (kind, (["base"] + names_e + ["?"] * n)[max(i, j)]),
                         "sig": {"kind": "eq-but-hash-differs", "obj": kind}, "detail": {"i": i, "j": j}}
             for k in range(n):
                 if viol is None and E[i][j] and E[j][k] and not E[i][k]:
                     viol = {"what": "equality is not transitive", "sig": {"kind": "eq-not-transitive", "obj": kind}, "detail": {}}
-    for idx, (e, differs) in enumerate(zip(case["edits"], expect), start=1):
+    for idx, (e, differs) in enumerate(zip(names_e, expect), start=1):
         if viol is not None:
             break
         if differs is False and e in ("copy", "roundtrip-dict") and not E[0][idx]:
